@@ -2,7 +2,7 @@
     Property theorems only.  The statements are about [combine_paths], the model of
     sciparse::path::combinator::combine, for every hash function standing for SHA-256 and every
     HashMap iteration order (any function returning a permutation). *)
-From Sci Require Import Combine.Model Combine.Spec Combine.Obs Combine.Proofs Combine.ProofsC19 Combine.ProofsC04 Combine.ProofsMeta Combine.ProofsPath Combine.ProofsWF Combine.SpecRules Combine.ProofsSound.
+From Sci Require Import Combine.Model Combine.Spec Combine.Obs Combine.Proofs Combine.ProofsC19 Combine.ProofsC04 Combine.ProofsMeta Combine.ProofsPath Combine.ProofsWF Combine.SpecRules Combine.ProofsSound Combine.ProofsIfaces Combine.ProofsOrder.
 From Coq Require Import Permutation Sorted.
 Local Open Scope N_scope.
 
@@ -148,3 +148,60 @@ Proof.
   exact (combine_sound_lemma _ _ _ _ _ _ _ _ _ _ Hv He Hout Hp).
 Qed.
 Print Assumptions combine_sound.
+
+(** The interface list tells the truth about the hop fields: for well-formed segments the
+    metadata interface ids of every returned path are exactly [Spec.path_ifaces] of the
+    encoded path -- for every hop field its travel ingress then travel egress (by ConsDir),
+    interface 0 meaning "none", the outer side of the first and last hop field of a segment
+    not crossed except across a peering link -- in travel order. *)
+Theorem ifaces_match_hopfields :
+  forall Hid Hfp ord_v ord_e src dst cores non_cores out p,
+    order_ok ord_v ord_e ->
+    Forall wf_segment (cores ++ non_cores) ->
+    combine_paths Hid Hfp ord_v ord_e src dst cores non_cores = Ok out -> In p out ->
+    ifaces_truthful (obs_path p) = true.
+Proof.
+  intros Hid Hfp ord_v ord_e src dst cores non_cores out p [Hv He] Hwf Hout Hp.
+  pose proof (combine_ifaces_truthful _ _ _ _ _ _ _ _ _ Hv He Hwf Hout) as H. rewrite Forall_forall in H. exact (H p Hp).
+Qed.
+Print Assumptions ifaces_match_hopfields.
+
+(** Non-vacuity: a well-formed segment set (core AS 1 with children 2 and 3) for which the
+    model returns the path 2 -> 1 -> 3, so the hypotheses of the theorems above are satisfiable
+    together with a non-empty result. *)
+Example c04_nonvacuous :
+  let up := mkSeg 1700000000 7 [mkAE 1 2 1400 0 (mkHF 63 0 1 11) []; mkAE 2 0 1400 1400 (mkHF 63 1 0 12) []] in
+  let down := mkSeg 1700000000 9 [mkAE 1 3 1400 0 (mkHF 63 0 2 13) []; mkAE 3 0 1400 1400 (mkHF 63 1 0 14) []] in
+  Forall wf_segment ([] ++ [up; down])
+  /\ exists p, combine_paths (be_val 0) (be_val 0) (fun _ l => l) (fun _ _ l => l) 2 3 [] [up; down] = Ok [p]
+               /\ md_ifaces (odefault (mkMeta 0 0 None) (sp_meta p)) = Some [(2, 1); (1, 1); (1, 2); (3, 1)].
+Proof.
+  cbv zeta. split.
+  - cbn [app]. constructor; [apply wf_segb_sound; vm_compute; reflexivity|].
+    constructor; [apply wf_segb_sound; vm_compute; reflexivity|constructor].
+  - eexists; split; vm_compute; reflexivity.
+Qed.
+
+(** Independence of HashMap iteration order: whenever no two distinct search solutions have the
+    same sort key (cost, number of edges, and per edge: peer index, shortcut index, SegmentID
+    -- [NoTies], stated on the solutions found with the insertion-order iteration), the result
+    of [combine] is the same for EVERY iteration order of the two HashMap levels.  This is what
+    the correspondence relies on when it runs the model with insertion order against an
+    implementation whose HashMaps are randomly seeded.
+    PARTIAL with respect to invariance under permutation / duplication of the INPUT lists:
+    proved for reorderings of the candidate edges of a vertex (which is all a permutation of
+    the input can cause once the graphs have the same edge set); that the graphs built from
+    permuted inputs have the same edge set is checked by the correspondence (shuffled and
+    duplicated variants of every query), not proved. *)
+Theorem combine_order_irrelevant_partial :
+  forall Hid Hfp ord_v ord_e src dst cores non_cores g,
+    order_ok ord_v ord_e ->
+    add_segments [] (input_segments Hid cores non_cores) = Ok g ->
+    NoTies (bfs ord_id_v ord_id_e g dst 4 [sol_new (VAS src)]) ->
+    combine_paths Hid Hfp ord_v ord_e src dst cores non_cores
+    = combine_paths Hid Hfp ord_id_v ord_id_e src dst cores non_cores.
+Proof.
+  intros Hid Hfp ord_v ord_e src dst cores non_cores g [Hv He] Hg Hnt.
+  exact (combine_order_irrelevant_lemma _ _ _ _ _ _ _ _ _ Hv He Hg Hnt).
+Qed.
+Print Assumptions combine_order_irrelevant_partial.
